@@ -211,11 +211,15 @@ def observe_multi(mod, opts, steps, channel):
         return [{"acc": a, "inst": {"typeerr": 1}} for a in accs]
     except BaseException as e:  # noqa
         return [{"acc": a, "inst": {"other": type(e).__name__}} for a in accs]
+    return split_logs(mod, accs, [init.__dict__.get(o["name"]) for o in opts])
+
+
+def split_logs(mod, accs, roots):
+    """the constructor calls of each option / element: instantiate_classes goes through them in order, the object of
+    one is the last one built for it; anything left over after the last one stays visible in its segment"""
     full = list(mod.LOG)
-    # the constructor calls of each option: instantiate_classes goes through the options in order, the object of an
-    # option is the last one built for it; anything left over after the last option stays visible in its segment
+    n = len(roots)
     segs, start = [], 0
-    roots = [init.__dict__.get(o["name"]) for o in opts]
     for i, r in enumerate(roots):
         pos = [k for k in range(start, len(full)) if full[k][0] == id(r)] if type(r).__module__ == mod.__name__ else []
         stop = (pos[-1] + 1) if pos else start
@@ -249,6 +253,61 @@ def observe_multi(mod, opts, steps, channel):
             root = {"weird": "type mismatch"}
         out.append({"acc": a, "inst": {"ok": {"root": root, "log": log}}})
     return out
+
+
+def cont_argv(srcs):
+    args = []
+    for c in srcs:
+        if "dict" in c or "list" in c:
+            v = {k: py_value(x) for k, x in c["dict"]} if "dict" in c else [py_value(x) for x in c["list"]]
+            args.append("--cfg=%s" % json.dumps({"m": v}) if c.get("via") == "cfg" else "--m=%s" % json.dumps(v))
+        elif "key" in c:
+            args.append("--m.%s=%s" % (c["key"], render_raw(c["raw"])))
+        elif "append" in c:
+            args.append("--m+=%s" % render_raw(c["append"]))
+        else:
+            args.append("--m.%s=%s" % (".".join(c["last"]), render_raw(c["raw"])))
+    return args
+
+
+def observe_cont(mod, base, cont):
+    """one option --m typed Dict[str, Base] or List[Base]; observation per element of the final value"""
+    from typing import Dict, List
+
+    from jsonargparse import ArgumentError, ArgumentParser
+
+    cls = getattr(mod, base)
+    parser = ArgumentParser(exit_on_error=False)
+    if any(c.get("via") == "cfg" for c in cont["srcs"]):
+        parser.add_argument("--cfg", action="config")
+    parser.add_argument("--m", type=Dict[str, cls] if cont["kind"] == "dict" else List[cls])
+    try:
+        cfg = parser.parse_args(cont_argv(cont["srcs"]))
+    except ArgumentError:
+        return {"rej": 1}
+    except SystemExit as e:
+        return {"exc": "SystemExit(%s)" % e.code}
+    except BaseException as e:  # noqa
+        return {"exc": type(e).__name__}
+    val = cfg.clone().__dict__.get("m")
+    if cont["kind"] == "dict":
+        if not isinstance(val, dict):
+            return {"exc": "value:" + type(val).__name__}
+        keys, vals = [str(k) for k in val], list(val.values())
+    else:
+        if not isinstance(val, list):
+            return {"exc": "value:" + type(val).__name__}
+        keys, vals = [""] * len(val), list(val)
+    accs = [value_json(v) for v in vals]
+    del mod.LOG[:]
+    try:
+        init = parser.instantiate_classes(cfg)
+    except (TypeError, ValueError):
+        return {"elems": [[k, {"acc": a, "inst": {"typeerr": 1}}] for k, a in zip(keys, accs)]}
+    except BaseException as e:  # noqa
+        return {"elems": [[k, {"acc": a, "inst": {"other": type(e).__name__}}] for k, a in zip(keys, accs)]}
+    objs = list(init.m.values()) if cont["kind"] == "dict" else list(init.m)
+    return {"elems": [[k, o] for k, o in zip(keys, split_logs(mod, accs, objs))]}
 
 
 def load_family(tmp, fam):
@@ -287,6 +346,9 @@ def run_case(tmp, mods, case):
         w = case["warm"]
         res["warm"] = observe(mod, w["base"], w["dflt"], w["steps"], "argv")
     grow_family(tmp, mod, fam)
+    if case.get("cont"):
+        res["main"] = observe_cont(mod, case["base"], case["cont"])
+        return res
     if case.get("multi"):
         obs = observe_multi(mod, case["multi"]["opts"], case["multi"]["argv"], "argv")
         res["main"], res["sibs"] = obs[0], obs[1:]
